@@ -167,16 +167,16 @@ func newWorld(kind string, nl, qsize int, withIdx bool) *world {
 	switch kind {
 	case "line":
 		wd.ln = line.NewLine(wd.wg, line.WithQSize(qsize), line.WithName("c14"))
-		wd.frag = "line.(*Line).popLoop"
+		wd.frag = "neptune/syncx/pipe/line."
 	case "mline":
 		wd.ml = mline.NewMultiLine(pipe.WithSlotSize(nl), pipe.WithQSize(qsize))
-		wd.frag = "mline.(*MultiLine).popLoop"
+		wd.frag = "neptune/syncx/pipe/mline."
 	case "runq":
 		wd.rq = async.NewRunnerQ(async.WithQSize(qsize), async.WithWaitGroup(wd.wg), async.WithName("c14"))
-		wd.frag = "async.(*RunnerQ).popLoop"
+		wd.frag = "neptune/syncx/pipe/async."
 	case "pchan":
 		wd.pc = async.NewProcChan(async.WithQSize(qsize), async.WithWaitGroup(wd.wg), async.WithName("c14"))
-		wd.frag = "async.(*ProcChan).popLoop"
+		wd.frag = "neptune/syncx/pipe/async."
 	default:
 		tr.Fatal("unknown kind %q", kind)
 	}
@@ -184,7 +184,7 @@ func newWorld(kind string, nl, qsize int, withIdx bool) *world {
 	for i := 1; i <= maxCalls; i++ {
 		wd.calls[i] = &call{id: i, ctx: newCtx(i), gate: make(chan struct{}), status: "idle"}
 	}
-	wd.base = qx.StacksContaining(wd.frag)
+	wd.base = wd.pkgGoroutines()
 	return wd
 }
 
@@ -339,7 +339,30 @@ func (wd *world) prepare(c *call, hv int, fail, pre, gated bool) bool {
 	return true
 }
 
-func (wd *world) alive() int { return qx.StacksContaining(wd.frag) - wd.base }
+// pkgGoroutines counts the goroutines that are inside the executor's package without being a
+// caller of this harness: the executor's own goroutines (consumers, MultiLine's exit signaller).
+// No function name of the package is assumed.
+func (wd *world) pkgGoroutines() int {
+	buf := make([]byte, 1<<20)
+	for {
+		n := runtime.Stack(buf, true)
+		if n < len(buf) {
+			buf = buf[:n]
+			break
+		}
+		buf = make([]byte, 2*len(buf))
+	}
+	cnt := 0
+	for _, blk := range strings.Split(string(buf), "\n\n") {
+		if strings.Contains(blk, wd.frag) && !strings.Contains(blk, "main.(*world).submit") {
+			cnt++
+		}
+	}
+	return cnt
+}
+
+// alive: some goroutine of the executor is left.
+func (wd *world) alive() bool { return wd.pkgGoroutines()-wd.base > 0 }
 
 // ---------------------------------------------------------------- step mode
 
